@@ -33,7 +33,7 @@ import struct
 import sys
 import time
 
-sys.path.insert(0, '/repo')
+sys.path.insert(0, os.environ.get('VERIF_REPO', '/repo'))
 import pycdlib  # noqa: E402
 
 BLOCK = 2048
